@@ -11,24 +11,37 @@ Open Scope string_scope. Open Scope list_scope. Open Scope Z_scope.
 
 (* ---------------------------------------------------------------- C16_combined
    l = the items of the closure in parse order (DFS over imports, imports before own sections).
-   combined_items l = what YAMLCompiler dumps: every section merged in that order (dict.update), re-read by
+   combined_items l = what YAMLCompiler dumps: every section merged in that order (dict.update; the _RESERVED_
+   blocks of all files merged into one block listing all their ids, at the place of the first), re-read by
    parse_text section by section.
-   FULL: forall ap l st, parse_items ap l = POk st -> reparse_combined ap l = POk st   (same ids, hashes - any
-   function of the source declaration kept in pd_body -, sizes, layouts: the SAME parsed state).
-   Stated condition: backward_uses l - no alias names a struct of the closure and no struct body names a message
-   of the closure, i.e. every use goes from a later section to an earlier-or-equal one - and at most one
-   _RESERVED_ block (the merge is a dict.update keyed by "_RESERVED_"). *)
+   same_defs st st' (Proofs/EmitCombined.v) = the same ids, hashes - any function of the source declaration kept
+   in pd_body -, sizes and layouts: constants, strings, aliases, host ids, module ids and structs are identical
+   lists; message_ids and message_defs hold the same entries (a permutation) and the user's own entries come in the
+   same order - only the _RESERVED_nnnnnn placeholders of several files gather where the first block was.
+   FULL: forall ap l st, parse_items ap l = POk st -> exists st', reparse_combined ap l = POk st' /\ same_defs st st'.
+   Stated condition (the two emission-order findings that stay open): backward_uses l - no alias names a struct of the
+   closure and no struct body names a message of the closure, i.e. every use goes from a later section to an
+   earlier-or-equal one.
+   legal_names l is not an exclusion of accepted inputs: Parser.check_name rejects every declared name that does
+   not start with a letter (tied by the C12 guards translator); Model/Emit.v's step does not model that check, so
+   it appears here as a hypothesis on the source items. *)
 Theorem C16_combined : forall ap l st,
-  backward_uses l = true -> (count_reserved l <= 1)%nat ->
-  parse_items ap l = POk st -> reparse_combined ap l = POk st.
+  backward_uses l = true -> legal_names l = true ->
+  parse_items ap l = POk st -> exists st', reparse_combined ap l = POk st' /\ same_defs st st'.
 Proof. exact combined_roundtrip. Qed.
 
 Corollary C16_combined_closure : forall ap c l st,
-  closure_items c = Some l -> backward_uses l = true -> (count_reserved l <= 1)%nat ->
-  parse_closure ap c = POk st -> reparse_combined ap l = POk st.
+  closure_items c = Some l -> backward_uses l = true -> legal_names l = true ->
+  parse_closure ap c = POk st -> exists st', reparse_combined ap l = POk st' /\ same_defs st st'.
 Proof.
-  intros ap c l st Hl Hb Hr H. unfold parse_closure in H. rewrite Hl in H. apply combined_roundtrip; assumption.
+  intros ap c l st Hl Hb Hn H. unfold parse_closure in H. rewrite Hl in H. apply combined_roundtrip; assumption.
 Qed.
+
+(* with at most one _RESERVED_ block in the closure nothing moves: the re-read state is THE SAME state *)
+Theorem C16_combined_exact : forall ap l st,
+  backward_uses l = true -> (count_reserved l <= 1)%nat ->
+  parse_items ap l = POk st -> reparse_combined ap l = POk st.
+Proof. exact combined_roundtrip_exact. Qed.
 
 (* witnesses against the full statement *)
 Definition alias_of_struct_closure : closure :=
@@ -52,11 +65,20 @@ Theorem C16_combined_refuted_struct_of_msg : exists st,
   roundtrip struct_of_msg_closure = Some (POk st, PReject RSyntax).
 Proof. eexists. vm_compute. reflexivity. Qed.
 
-(* the reserved ids of the file read first are lost *)
-Theorem C16_combined_refuted_two_reserved : exists st st',
+(* several _RESERVED_ blocks (bcffd4b): every reserved id survives the round trip; the placeholders of the file read
+   first and of the root file end up side by side, the user's message keeps its id *)
+Example C16_two_reserved_roundtrip : exists l st st',
+  closure_items two_reserved_closure = Some l /\ backward_uses l = true /\ legal_names l = true /\
+  count_reserved l = 2%nat /\
   roundtrip two_reserved_closure = Some (POk st, POk st') /\
-  map snd (ps_mts st) = [100; 101; 5; 10; 12] /\ map snd (ps_mts st') = [10; 12; 5].
-Proof. eexists. eexists. split; [vm_compute; reflexivity|]. split; reflexivity. Qed.
+  map snd (ps_mts st) = [100; 101; 5; 10; 12] /\ map snd (ps_mts st') = [100; 101; 10; 12; 5] /\
+  map fst (ps_mts st') = ["_RESERVED_000100"; "_RESERVED_000101"; "_RESERVED_000010"; "_RESERVED_000012"; "M1"] /\
+  map pd_name (ps_msgs st') = map fst (ps_mts st').
+Proof.
+  eexists. eexists. eexists. split; [vm_compute; reflexivity|]. split; [vm_compute; reflexivity|].
+  split; [vm_compute; reflexivity|]. split; [vm_compute; reflexivity|]. split; [vm_compute; reflexivity|].
+  repeat split; reflexivity.
+Qed.
 
 (* non-vacuity: a three-file closure whose merge really reorders the items *)
 Definition ex_closure : closure :=
@@ -71,11 +93,11 @@ Definition ex_closure : closure :=
    mkFile [0]%nat [IStr "greet" "hello"; IMid "D1" 21]].
 
 Example C16_ex_roundtrip : exists l st,
-  closure_items ex_closure = Some l /\ backward_uses l = true /\ (count_reserved l <= 1)%nat /\
+  closure_items ex_closure = Some l /\ backward_uses l = true /\ legal_names l = true /\ (count_reserved l <= 1)%nat /\
   combined_items l <> l /\ parse_closure true ex_closure = POk st /\ reparse_combined true l = POk st /\
   map pd_size (ps_structs st ++ ps_msgs st) = [8; 20; 8; 0; 36; 8; 0; 0].
 Proof.
-  eexists. eexists. split; [vm_compute; reflexivity|]. split; [vm_compute; reflexivity|].
+  eexists. eexists. split; [vm_compute; reflexivity|]. split; [vm_compute; reflexivity|]. split; [vm_compute; reflexivity|].
   split; [vm_compute; lia|]. split; [vm_compute; discriminate|]. split; [vm_compute; reflexivity|].
   split; vm_compute; reflexivity.
 Qed.
